@@ -341,3 +341,256 @@ def check_dispatch(fi, roles, names):
         if got != want:
             return n, (d0, sc, got, want), dsp.preds
     return n, None, dsp.preds
+
+
+# ----------------------------------------------------------------------------------------------------------------------
+# The plain FKM (Clormann-Seeger) detector: the per-turn body of FKMDetector.process
+
+class TurnLoop(Dispatch):
+    """abstract executor of the body of `for current in turns:` in FKMDetector.process.  Counters: the length of the residual
+    stack (changed by pop / del / append) and the primary-path counter ir; data predicates as in Dispatch (SMALLER without
+    round-off guard, i.e. the loop closes iff |cur - r[-1]| >= |r[-1] - r[-2]|).  Stack entries read into locals keep their
+    absolute position, so the order of `record` and `pop` does not matter."""
+
+    def __init__(self, fi, loop, roles, aliases, rec_lists):
+        super().__init__(fi, roles)
+        self.loop = loop
+        self.aliases = aliases          # local names bound to the stack object
+        self.rec = rec_lists            # (from-list name, to-list name)
+        self.sl = 0
+
+    def _is_stack(self, e):
+        return is_self_attr(e, self.roles["stack"]) or (isinstance(e, ast.Name) and e.id in self.aliases)
+
+    def _abs_slot(self, e):
+        if isinstance(e, ast.Name) and e.id.startswith("__slot_"):
+            return int(e.id[7:].replace("m", "-"))
+        if isinstance(e, ast.Subscript) and self._is_stack(e.value):
+            k = const_value(e.slice)
+            if isinstance(k, int) and k < 0:
+                return self.sl + k
+        return None
+
+    def _slot(self, e):
+        a = self._abs_slot(e)
+        if a is None:
+            return None
+        pair = getattr(self, "last_pair", None)
+        if pair is not None and a in pair and a >= self.sl:
+            return -2 if a == pair[0] else -1        # an end of the hysteresis just closed (already removed from the stack)
+        return a - self.sl
+
+    def run_turn(self, d0, scenario, max_iter=12):
+        self.last_pair = None
+        ir0 = 10
+        self.sl = ir0 + d0
+        sl0 = self.sl
+        ints = {self.roles["ir"]: ir0}
+        exprs = {}
+        events = []
+        self.closings = 0
+
+        def subst(e):
+            out = e
+            for _ in range(4):
+                new = subst_names(out, exprs)
+                if ast.dump(new) == ast.dump(out):
+                    break
+                out = new
+            return out
+
+        def value_int(e):
+            c = const_value(e)
+            if isinstance(c, int) and not isinstance(c, bool):
+                return c
+            if isinstance(e, ast.Name) and e.id in ints:
+                return ints[e.id]
+            if isinstance(e, ast.Call) and call_name(e) == "len" and e.args and self._is_stack(e.args[0]):
+                return self.sl
+            if isinstance(e, ast.BinOp) and isinstance(e.op, (ast.Add, ast.Sub)):
+                a, b = value_int(e.left), value_int(e.right)
+                if a is not None and b is not None:
+                    return a + b if isinstance(e.op, ast.Add) else a - b
+            return None
+
+        def decide(t):
+            if isinstance(t, ast.Constant):
+                return bool(t.value)
+            if isinstance(t, ast.UnaryOp) and isinstance(t.op, ast.Not):
+                return not decide(t.operand)
+            if isinstance(t, ast.BoolOp):
+                vals = [decide(v) for v in t.values]
+                return all(vals) if isinstance(t.op, ast.And) else any(vals)
+            if isinstance(t, ast.Name) and t.id in exprs:
+                return decide(exprs[t.id])
+            if isinstance(t, ast.Compare) and len(t.ops) == 1:
+                a, b = value_int(t.left), value_int(t.comparators[0])
+                if a is not None and b is not None:
+                    return {ast.Eq: a == b, ast.NotEq: a != b, ast.Lt: a < b, ast.LtE: a <= b, ast.Gt: a > b, ast.GtE: a >= b}[
+                        type(t.ops[0])]
+            ts = subst(t)
+            got = self.classify(ts)
+            if got is None:
+                raise AnalysisError("%s: branch test %s is not one of the HCM predicates" % (self.fi.name, norm_text(ts)[:100]))
+            key, neg = got
+            if key.startswith("INNER-"):
+                # the closed pair has been removed or not yet; the halves refer to the pair of the last closing decision
+                pair = scenario["INNER"][min(max(self.closings - 1, 0), len(scenario["INNER"]) - 1)]
+                val = pair[0] if key == "INNER-2" else pair[1]
+            elif key == "SMALLER":
+                val = scenario["SMALLER"][min(self.closings, len(scenario["SMALLER"]) - 1)]
+                if not val:
+                    self.last_pair = (self.sl - 2, self.sl - 1)
+            elif key == "NEWMAX":
+                val = scenario["NEWMAX"]
+            else:
+                raise AnalysisError("%s: predicate %s (%s) deviates from the HCM form" % (self.fi.name, key, self.preds.get(key)))
+            return (not val) if neg else val
+
+        def stack_stmt(st):
+            """pop / del / append on the stack; returns True if handled"""
+            if isinstance(st, ast.Delete):
+                for t in st.targets:
+                    if isinstance(t, ast.Subscript) and self._is_stack(t.value) and isinstance(t.slice, ast.Slice) and \
+                            t.slice.upper is None and isinstance(const_value(t.slice.lower), int) and const_value(t.slice.lower) < 0:
+                        k = -const_value(t.slice.lower)
+                        for _ in range(k):
+                            self.sl -= 1
+                            events.append(("pop", self.sl))
+                        return True
+                return False
+            if isinstance(st, ast.Expr) and isinstance(st.value, ast.Call) and isinstance(st.value.func, ast.Attribute):
+                c = st.value
+                if self._is_stack(c.func.value):
+                    if c.func.attr == "pop" and not c.args:
+                        self.sl -= 1
+                        events.append(("pop", self.sl))
+                        return True
+                    if c.func.attr == "append" and len(c.args) == 1:
+                        v = subst(c.args[0])
+                        events.append(("push", "cur" if self._is_cur(v) else norm_text(v)))
+                        self.sl += 1
+                        return True
+                    raise AnalysisError("%s: stack operation %s not modelled" % (self.fi.name, norm_text(c)))
+                if isinstance(c.func.value, ast.Name) and c.func.value.id in self.rec and c.func.attr == "append" and len(c.args) == 1:
+                    v = subst(c.args[0])
+                    events.append(("rec", "from" if c.func.value.id == self.rec[0] else "to", self._abs_slot(v)))
+                    return True
+            return False
+
+        def block(body):
+            for st in body:
+                if stack_stmt(st):
+                    if any(e[0] == "pop" for e in events[-1:]):
+                        pops = sum(1 for e in events if e[0] == "pop")
+                        self.closings = pops // 2
+                    continue
+                if isinstance(st, ast.Expr):
+                    continue
+                if isinstance(st, ast.Assign) and len(st.targets) == 1 and isinstance(st.targets[0], ast.Name):
+                    nm = st.targets[0].id
+                    if nm == self.roles["mx"]:
+                        v = subst(st.value)
+                        ok = isinstance(v, ast.Call) and (call_name(v) or "") in ("max", "np.maximum", "np.fmax") and len(v.args) == 2 and \
+                            any(_abs_arg(a) is not None and self._is_cur(_abs_arg(a)) for a in v.args) and \
+                            any(isinstance(a, ast.Name) and a.id == self.roles["mx"] for a in v.args)
+                        events.append(("max_update", "ok" if ok else norm_text(v)))
+                        continue
+                    iv = value_int(st.value)
+                    if nm in ints or iv is not None:
+                        if iv is None:
+                            raise AnalysisError("%s: counter %s assigned a non-constant" % (self.fi.name, nm))
+                        ints[nm] = iv
+                        continue
+                    a = self._abs_slot(subst(st.value))
+                    if a is not None:
+                        exprs[nm] = ast.Name(id="__slot_%s" % str(a).replace("-", "m"), ctx=ast.Load())
+                    else:
+                        exprs[nm] = subst(st.value)
+                elif isinstance(st, ast.AugAssign) and isinstance(st.target, ast.Name) and st.target.id in ints:
+                    c = const_value(st.value)
+                    if not isinstance(c, int):
+                        raise AnalysisError("%s: counter %s changed by a non-constant" % (self.fi.name, st.target.id))
+                    ints[st.target.id] += c if isinstance(st.op, ast.Add) else -c
+                elif isinstance(st, ast.If):
+                    block(st.body if decide(st.test) else st.orelse)
+                elif isinstance(st, ast.While):
+                    n = 0
+                    while decide(st.test):
+                        n += 1
+                        if n > max_iter:
+                            raise AnalysisError("%s: loop does not terminate in the abstract execution" % self.fi.name)
+                        try:
+                            block(st.body)
+                        except _Break:
+                            break
+                        except _Continue:
+                            continue
+                elif isinstance(st, ast.Break):
+                    raise _Break()
+                elif isinstance(st, ast.Continue):
+                    raise _Continue()
+                elif isinstance(st, (ast.Pass, ast.Assert)):
+                    pass
+                elif isinstance(st, ast.Assign) and all(is_self_attr(t) for t in st.targets):
+                    pass                         # write-back of the mirrored state (decided by R-C01-1)
+                else:
+                    raise AnalysisError("%s: statement %s not modelled" % (self.fi.name, type(st).__name__))
+        try:
+            block(self.loop.body)
+        except (_Break, _Continue):
+            raise AnalysisError("%s: break/continue outside the inner loop" % self.fi.name)
+        return _canon_turn(events), self.sl - sl0, ints[self.roles["ir"]] - ir0
+
+
+def _canon_turn(events):
+    """the two record events of one closing may come in either order, and before or after the two pops"""
+    out, buf = [], []
+    for e in events:
+        if e[0] in ("rec", "pop"):
+            buf.append(e)
+        else:
+            out.extend(sorted(buf, key=repr))
+            buf = []
+            out.append(e)
+    out.extend(sorted(buf, key=repr))
+    return out
+
+
+def spec_turn(d0, sc):
+    ir0 = 10
+    sl = ir0 + d0
+    sl0, dir_, k, ev, buf = sl, 0, 0, [], []
+    while True:
+        d = sl - (ir0 + dir_)
+        if d < 0:
+            break
+        if d > 0:
+            if sc["SMALLER"][min(k, len(sc["SMALLER"]) - 1)]:
+                break
+            buf += [("rec", "from", sl - 2), ("rec", "to", sl - 1), ("pop", sl - 1), ("pop", sl - 2)]
+            sl -= 2
+            inner = all(sc["INNER"][min(k, len(sc["INNER"]) - 1)])
+            k += 1
+            if inner:
+                continue
+            break
+        if sc["NEWMAX"]:
+            dir_ += 1
+        break
+    ev = sorted(buf, key=repr) + [("max_update", "ok"), ("push", "cur")]
+    return ev, sl + 1 - sl0, dir_
+
+
+def check_turn_loop(fi, loop, roles, aliases, rec_lists):
+    tl = TurnLoop(fi, loop, roles, aliases, rec_lists)
+    n = 0
+    for d0, sc in scenarios():
+        if sc["RUN1"]:
+            continue                         # no pass counter in the plain detector
+        got = tl.run_turn(d0, sc)
+        want = spec_turn(d0, sc)
+        n += 1
+        if got != want:
+            return n, (d0, sc, got, want), tl.preds
+    return n, None, tl.preds
